@@ -84,6 +84,13 @@ def run_one(tape):
     elif tape.chance(150, 'rclose') and scripts[svc]:
       close_after[svc] = tape.draw(len(scripts[svc]), 'rclose_n')
     plans[svc] = p
+  # a stream on which one host thread writes while another polls it with timeout 0
+  poll = None
+  if tape.chance(250, 'poll_stream'):
+    poll = {'svc': 'shell:poll', 'n': 2 + tape.draw(6, 'npolls'), 'pause': tape.pick([0.001, 0.02, 0.1], 'ppause'),
+            'writes': [''.join(chr(97 + j % 26) for j in range(tape.pick([1, maxdata, 2 * maxdata + 1], 'pwlen')))
+                       for _ in range(1 + tape.draw(2, 'npw'))], 'timeout_ms': 5000}
+    scripts[poll['svc']] = []
   knobs = core.Knobs(p_sync=tape.pick([0, 60, 200], 'p_sync'), gap_mean=tape.pick([0, 15, 40, 120], 'gap'),
                      hot_span=0, max_steps=1500000, max_time=400.0)
   viols = []
@@ -103,6 +110,8 @@ def run_one(tape):
         n = sum((len(w) + maxdata - 1) // maxdata for w in plans[svc]['writes'])
         if n and svc not in close_after:
           expect[svc] = n
+      if poll:
+        expect[poll['svc']] = sum((len(w) + maxdata - 1) // maxdata for w in poll['writes'])
       dev = wadb.Device(sim, tape, tr, {'maxdata': maxdata, 'scripts': scripts, 'refuse': refuse,
                                         'close_after': close_after, 'expect_host_writes': expect})
       dth = threading.Thread(target=wadb.device_thread, args=(dev, wadb.plain_handshake), name='device')
@@ -137,6 +146,21 @@ def run_one(tape):
             t2 = threading.Thread(target=wadb.stream_writer, args=(sim, stream, svc, p, out), name='wr-' + svc)
             t2.daemon = True
             ths.append(t2)
+      if poll:
+        key = poll['svc']
+        out[key] = {'read': [], 'written': [], 'calls': [], 'end': None, 'wend': None}
+        try:
+          pstream = conn.open_stream(key, 5000)
+        except BaseException as e:  # pylint: disable=broad-except
+          pstream = None
+          out[key]['end'] = 'open_exc:' + type(e).__name__
+        if pstream is not None:
+          t = threading.Thread(target=wadb.stream_poller, args=(sim, pstream, key, poll['n'], poll['pause'], out), name='poll')
+          t.daemon = True
+          ths.append(t)
+          t2 = threading.Thread(target=wadb.stream_writer, args=(sim, pstream, key, poll, out), name='wr-poll')
+          t2.daemon = True
+          ths.append(t2)
       for t in ths:
         t.start()
       # writers first: when they are done the device may close those streams
@@ -156,6 +180,13 @@ def run_one(tape):
     viols.append({'clause': 'stuck_' + failed, 'details': {'info': (failed_info or '')[:300]}})
   elif dev is not None and failed is None:
     _oracle(dev, svcs, scripts, plans, refuse, close_after, out, maxdata, viols, probes, faults, sim)
+    if poll and out.get(poll['svc']):
+      for (what, tmo, dur, res) in out[poll['svc']]['calls']:
+        if what == 'poll':
+          probes['zero_timeout_poll'] = 1
+          if dur > 0.05:
+            viols.append({'clause': 'zero_timeout_read_blocked', 'details': {'seconds': round(dur, 3), 'result': res}})
+            break
   return {
       'violations': viols, 'digest': sim.digest(), 'sched': sim.sched_digest(),
       'nontrivial': len([1 for s in svcs if out.get(s)]) + sum(1 for s in svcs if plans[s]['writes']) >= 2 or bool(faults),
